@@ -265,22 +265,35 @@ def ThickBandDiscounted (l : Line) (w : Nat) : Prop :=
     discountedReach l skL skR p ≤ 0 ∨
     discountedReach l skL skR p ^ 2 ≤ ((w : Int) + 5) ^ 2 * L2 l
 
+/-- The oracle's attribution predicate (`explained` in `thick_oracle`, harness/src/m_thick.rs): a band
+failure is filed under the known finding `C17:thick-band:wide-stroke-overcount` only if, after the
+discount, every pixel is within `w/2 + 1.5` pixels of the ideal line (tighter than the text's 2.5). -/
+def ThickBandOvercountExplained (l : Line) (w : Nat) : Prop :=
+  ∃ skL skR, SkippedSteps l w skL skR ∧ ∀ ps, Thick.thickPoints l w = some ps → ∀ p ∈ ps,
+    discountedReach l skL skR p ≤ 0 ∨
+    discountedReach l skL skR p ^ 2 ≤ ((w : Int) + 3) ^ 2 * L2 l
+
 /-- **With the skipped `Extra` steps of its side discounted, every pixel of every stroked line is
-within `w/2 + 1.75` (hence `w/2 + 2.5`) pixels of the ideal line** - every line (zero length
-included), every width `<= i32::MAX`: `t <= 0`, or `(2 t)^2 <= (2 w + 7)^2 L2` and `t^2 <= (w + 5)^2 L2`
-for `t = 2 |cross(p)| - 2 min(|dx|,|dy|) sk(side(p))`. This is the exact account of the known finding:
-the only way a stroke leaves the band of the text is by `min(|dx|,|dy|)/L` pixels per skipped step
-(`skipped_step_not_counted`, `next_adds_one_step` in EG/Props/C17.lean).
+within `w/2 + 1.25` pixels of the ideal line** - hence within the oracle's attribution tolerance
+`w/2 + 1.5` and the text's `w/2 + 2.5` - for every line (zero length included) and every width
+`<= i32::MAX`: with `t = 2 |cross(p)| - 2 min(|dx|,|dy|) sk(side(p))`,
+`t <= 0`, or `(2 t)^2 <= (2 w + 5)^2 L2`, `t^2 <= (w + 3)^2 L2` and `t^2 <= (w + 5)^2 L2`.
+This is the exact account of the known finding: the only way a stroke leaves the band of the text is
+by `min(|dx|,|dy|)/L` pixels per skipped step (`skipped_step_not_counted`, `next_adds_one_step` in
+EG/Props/C17.lean); measured on the real code the discounted excess reaches 1.14 px, the bound 1.25
+leaves 0.11 px.
 (Mechanism of the proof, EG/Lemmas/ThickGeoDiscount.lean: per side, with `N` / `E` returned `Normal` /
 `Extra` parallels and `S` skipped steps, the side's parallel error is `+-(2 d (E + S) - 2 D E)` and its
 walker error `+-(2 d N - 2 D (E + S))`, both bounded by about `D`; so a pixel of the side's `n`-th
-band, `|2 cross| <= 2 D n + D`, has `|2 cross| - 2 d S <= 2 D N + 2 d E + 2 D` = the side's share of the
-accumulator `+ 2 D`; the two shares differ by at most `2 (D - d)`, and the accumulator is at most
-`2 w L` when the parallel is fetched: `2 t <= 2 w L + 7 D - 3 d`.) -/
+band, `|2 cross| <= 2 D n + D`, has `|2 cross| - 2 d S <=` the side's share `2 D N + 2 d E` of the
+accumulator `+ D -+ err`; the shares of the two sides differ by `2 (D - d) z`, `z` the difference of
+their numbers of `Extra` parallels, `|z| <= 1` by an exact identity; and the accumulator is at most
+`2 w L` when the parallel is fetched: `2 t <= 2 w L + 5 D - d`.) -/
 theorem thick_band_with_skipped_discount (l : Line) (w : Nat) (hw2 : w ≤ 2147483647) :
     ∃ skL skR, SkippedSteps l w skL skR ∧ ∀ ps, Thick.thickPoints l w = some ps → ∀ p ∈ ps,
       discountedReach l skL skR p ≤ 0 ∨
-      (4 * discountedReach l skL skR p ^ 2 ≤ (2 * (w : Int) + 7) ^ 2 * L2 l ∧
+      (4 * discountedReach l skL skR p ^ 2 ≤ (2 * (w : Int) + 5) ^ 2 * L2 l ∧
+       discountedReach l skL skR p ^ 2 ≤ ((w : Int) + 3) ^ 2 * L2 l ∧
        discountedReach l skL skR p ^ 2 ≤ ((w : Int) + 5) ^ 2 * L2 l) := by
   obtain ⟨ps0, h0⟩ := Thick.thickPoints_total l w
   obtain ⟨skL, skR, hsk, hall⟩ := discount_cross l w hw2 ps0 h0
@@ -299,12 +312,23 @@ theorem thick_band_with_skipped_discount (l : Line) (w : Nat) (hw2 : w ≤ 21474
   exact disc_band _ A (majorLen l) (L2 l) w (by rw [majorLen_eq]; omega) hS (by omega) hA0 hA
     (by rw [minorLen_eq] at ht; omega)
 
-/-- The discounted band claim holds for every stroke. -/
+/-- The discounted band claim of the text holds for every stroke. -/
 theorem thick_band_discounted_all (l : Line) (w : Nat) (hw2 : w ≤ 2147483647) :
     ThickBandDiscounted l w := by
   obtain ⟨skL, skR, hsk, hall⟩ := thick_band_with_skipped_discount l w hw2
   refine ⟨skL, skR, hsk, fun ps h p hp => ?_⟩
-  rcases hall ps h p hp with ht | ⟨_, ht⟩
+  rcases hall ps h p hp with ht | ⟨_, _, ht⟩
+  · exact Or.inl ht
+  · exact Or.inr ht
+
+/-- **Every band failure is the known finding**: the oracle's attribution predicate holds for every
+stroke, so on the model a pixel outside `w/2 + 2.5` is always explained by skipped steps (the class
+`C17:thick-band` without suffix never fires for a stroke that conforms to the model, at any width). -/
+theorem thick_band_overcount_explained_all (l : Line) (w : Nat) (hw2 : w ≤ 2147483647) :
+    ThickBandOvercountExplained l w := by
+  obtain ⟨skL, skR, hsk, hall⟩ := thick_band_with_skipped_discount l w hw2
+  refine ⟨skL, skR, hsk, fun ps h p hp => ?_⟩
+  rcases hall ps h p hp with ht | ⟨_, ht, _⟩
   · exact Or.inl ht
   · exact Or.inr ht
 
